@@ -1,0 +1,86 @@
+//go:build verif
+
+// Contracts for scope analysis (C03, C18).  See /verif/DESIGN.md.  The decision table is written from the language
+// reference (execution model: naming and binding) and CPython 3.4's symtable.c analyze_name.
+
+package symtable
+
+//@ spec fG(s Symbol) bool = (s.Flags & DefGlobal) != 0
+//@ spec fN(s Symbol) bool = (s.Flags & DefNonlocal) != 0
+//@ spec fP(s Symbol) bool = (s.Flags & DefParam) != 0
+//@ spec fB(s Symbol) bool = (s.Flags & DefBound) != 0
+//@ spec inSet(b StringSet, name string) bool = b != nil && has(b, name)
+//@ spec forbidden(s Symbol, bound StringSet, name string) bool = (fG(s) && (fP(s) || fN(s))) || (!fG(s) && fN(s) && (fP(s) || bound == nil || !has(bound, name)))
+//@ spec sameAt(m StringSet, k string) bool = m != nil ==> ((has(m, k) <==> old(has(m, k))))
+
+//@ func (*SymTable).AnalyzeName(st, scopes, name, symbol, bound, local, free, global)
+//@   requires nn: scopes != nil && local != nil && free != nil && global != nil
+//@   requires distinct: local != free && local != global && free != global && (bound != nil ==> bound != local && bound != free && bound != global)
+//@   modifies mapof(scopes), mapof(bound), mapof(local), mapof(free), mapof(global), st.Free
+//@   panics forbidden: forbidden(symbol, bound, name)
+//@   ensures gexp: fG(symbol) ==> has(scopes, name) && scopes[name] == ScopeGlobalExplicit && has(global, name) && (bound != nil ==> !has(bound, name))
+//@   ensures nonlocal: !fG(symbol) && fN(symbol) ==> has(scopes, name) && scopes[name] == ScopeFree && has(free, name) && st.Free
+//@   ensures local: !fG(symbol) && !fN(symbol) && fB(symbol) ==> has(scopes, name) && scopes[name] == ScopeLocal && has(local, name) && !has(global, name)
+//@   ensures free: !fG(symbol) && !fN(symbol) && !fB(symbol) && old(inSet(bound, name)) ==> has(scopes, name) && scopes[name] == ScopeFree && has(free, name) && st.Free
+//@   ensures gimp: !fG(symbol) && !fN(symbol) && !fB(symbol) && !old(inSet(bound, name)) ==> has(scopes, name) && scopes[name] == ScopeGlobalImplicit
+//@   ensures perkey: forall k string: k != name ==> (has(scopes, k) <==> old(has(scopes, k))) && scopes[k] == old(scopes[k]) && sameAt(bound, k) && sameAt(local, k) && sameAt(free, k) && sameAt(global, k)
+//@   ensures freemono: old(st.Free) ==> st.Free
+
+// ---- loops over hash maps: the result must not depend on the iteration order (C03 last sentence, C18) ----
+// visited(k) is the ghost set of keys the range has produced so far; the invariants are per key.
+
+//@ func (StringSet).Update(s, other)
+//@   requires nn: s != nil
+//@   modifies mapof(s)
+//@   ensures union: forall k string: has(s, k) <==> (old(has(s, k)) || inSet(other, k))
+//@   loop 1
+//@     invariant done: forall k string: has(s, k) <==> (old(has(s, k)) || (visited(k) && inSet(other, k)))
+//@     invariant src: s != other ==> (forall k string: inSet(other, k) <==> old(inSet(other, k)))
+//@     invariant others: mapsframe(s)
+
+//@ func AnalyzeCells(scopes, free)
+//@   requires nn: scopes != nil && free != nil
+//@   modifies mapof(scopes), mapof(free)
+//@   ensures dom: forall k string: has(scopes, k) <==> old(has(scopes, k))
+//@   ensures cell: forall k string: old(has(scopes, k)) && old(scopes[k]) == ScopeLocal && old(has(free, k)) ==> scopes[k] == ScopeCell && !has(free, k)
+//@   ensures keep: forall k string: !(old(has(scopes, k)) && old(scopes[k]) == ScopeLocal && old(has(free, k))) ==> scopes[k] == old(scopes[k]) && (has(free, k) <==> old(has(free, k)))
+//@   loop 1
+//@     invariant dom: forall k string: has(scopes, k) <==> old(has(scopes, k))
+//@     invariant seen: forall k string: visited(k) && old(scopes[k]) == ScopeLocal && old(has(free, k)) ==> scopes[k] == ScopeCell && !has(free, k)
+//@     invariant notyet: forall k string: !(visited(k) && old(scopes[k]) == ScopeLocal && old(has(free, k))) ==> scopes[k] == old(scopes[k]) && (has(free, k) <==> old(has(free, k)))
+//@     invariant vis: forall k string: visited(k) ==> old(has(scopes, k))
+//@     invariant others: mapsframe(scopes, free)
+
+//@ spec scopeAt(scopes Scopes, k string) int = ite(has(scopes, k), scopes[k], 0)
+//@ spec newFree(symbols Symbols, free StringSet, bound StringSet, k string) bool = inSet(free, k) && !has(symbols, k) && inSet(bound, k)
+
+//@ func (Symbols).Update(symbols, scopes, bound, free, classflag)
+//@   requires nn: symbols != nil
+//@   modifies mapof(symbols)
+//@   ensures dom: forall k string: has(symbols, k) <==> (old(has(symbols, k)) || old(newFree(symbols, free, bound, k)))
+//@   ensures scope: forall k string: old(has(symbols, k)) ==> symbols[k].Scope == scopeAt(scopes, k) && symbols[k].Lineno == old(symbols[k].Lineno)
+//@   ensures added: forall k string: old(newFree(symbols, free, bound, k)) ==> symbols[k].Scope == ScopeFree && symbols[k].Flags == 0
+//@   loop 1
+//@     invariant dom: forall k string: has(symbols, k) <==> old(has(symbols, k))
+//@     invariant seen: forall k string: visited(k) ==> symbols[k].Scope == scopeAt(scopes, k) && symbols[k].Flags == old(symbols[k].Flags) && symbols[k].Lineno == old(symbols[k].Lineno)
+//@     invariant notyet: forall k string: !visited(k) ==> symbols[k] == old(symbols[k])
+//@     invariant vis: forall k string: visited(k) ==> old(has(symbols, k))
+//@     invariant others: mapsframe(symbols)
+//@   loop 2
+//@     invariant dom: forall k string: has(symbols, k) <==> (old(has(symbols, k)) || (visited(k) && old(newFree(symbols, free, bound, k))))
+//@     invariant old: forall k string: old(has(symbols, k)) ==> symbols[k].Scope == scopeAt(scopes, k) && symbols[k].Lineno == old(symbols[k].Lineno)
+//@     invariant added: forall k string: visited(k) && old(newFree(symbols, free, bound, k)) ==> symbols[k].Scope == ScopeFree && symbols[k].Flags == 0
+//@     invariant vis: forall k string: visited(k) ==> inSet(free, k)
+//@     invariant others: mapsframe(symbols)
+
+//@ spec tableScope(s Symbol, inBound bool) int = ite(fG(s), ScopeGlobalExplicit, ite(fN(s), ScopeFree, ite(fB(s), ScopeLocal, ite(inBound, ScopeFree, ScopeGlobalImplicit))))
+
+//@ func (*SymTable).AnalyzeBlock(st, bound, free, global)
+//@   requires nn: free != nil && global != nil && st.Symbols != nil && (bound != nil ==> bound != free && bound != global) && free != global
+//@   modifies *
+//@   loop 1
+//@     invariant keep: st.Symbols == pre(st.Symbols) && (forall k string: has(st.Symbols, k) <==> pre(has(st.Symbols, k))) && (forall k string: st.Symbols[k] == pre(st.Symbols[k]))
+//@     invariant fresh: scopes != nil && local != nil && local != free && local != global && (bound != nil ==> bound != local)
+//@     invariant det: forall k string: visited(k) ==> has(scopes, k) && scopes[k] == tableScope(st.Symbols[k], pre(inSet(bound, k)))
+//@     invariant untouched: forall k string: !visited(k) ==> !has(scopes, k) && (inSet(bound, k) <==> pre(inSet(bound, k))) && (has(global, k) <==> pre(has(global, k)))
+//@     invariant vis: forall k string: visited(k) ==> has(st.Symbols, k)
